@@ -53,6 +53,9 @@ def _handler_action(body, var):
         return _raise_action(body[0])
     if len(body) == 1 and isinstance(body[0], ast.Pass):
         return ("swallow",)
+    # undo a side effect, then raise:  <call expression>; raise X(...) from e
+    if len(body) == 2 and isinstance(body[0], ast.Expr) and isinstance(body[0].value, ast.Call) and isinstance(body[1], ast.Raise):
+        return _raise_action(body[1])
     if len(body) == 1 and isinstance(body[0], ast.Return) and isinstance(body[0].value, (ast.Name, ast.Attribute, ast.Call)):
         return ("swallow",)
     # `name = <constant>`: the handler continues with a default value
@@ -74,12 +77,17 @@ def _handler_action(body, var):
                            + "; ".join(_name(s)[:60] for s in body))
 
 
-def _calls(nodes):
+def _calls(nodes, assignments=False):
+    """names of the calls (and, for try bodies, of the assignment targets as `set:<target>`: a property setter may raise)"""
     out = []
     for n in nodes:
         for c in ast.walk(n):
             if isinstance(c, ast.Call):
                 out.append((c.lineno, c.col_offset, _name(c.func)))
+            if assignments and isinstance(c, ast.Assign):
+                for t in c.targets:
+                    if isinstance(t, ast.Attribute):
+                        out.append((c.lineno, c.col_offset - 1, "set:" + _name(t)))
     return [x[2] for x in sorted(out)]
 
 
@@ -112,7 +120,7 @@ def _function(fn, qual):
                 for s in h.body:
                     for x in ast.walk(s):
                         in_handler.add(id(x))
-            info["tries"].append((_calls(n.body), hs))
+            info["tries"].append((_calls(n.body, assignments=True), hs))
     for n in sorted((x for x in ast.walk(fn) if hasattr(x, "lineno")), key=lambda x: (x.lineno, x.col_offset)):
         if isinstance(n, ast.Raise) and id(n) not in in_handler and n.exc is not None:
             info["raises"].append(_raise_action(n)[1])
